@@ -107,6 +107,7 @@ func ProfileFor(prop string) *Profile {
 		p.W = scale(p.W, map[string]int{OpFirePH: 22, OpFireState: 14, OpDecom: 14, OpRelease: 60, OpDupConfirm: 14, OpReconfirm: 10, OpRmApp: 16, OpBound: 0, OpBindAsk: 0, OpUpdAsk: 0})
 	case "C07", "C08":
 		p.PreemptScenario = 800
+		p.SecondPreempt = 250
 		p.Gang = 60
 		p.Aged = 800
 		p.ReqNode = 100
@@ -153,6 +154,13 @@ func RunCase(prop string, seed uint64, replayDir string, cmdLog *os.File) (res *
 	r := NewRng(seed)
 	prof := ProfileFor(prop)
 	m := GenConfig(NewRng(Mix(seed, 1)), prof.Cfg)
+	// a quarter of the preemption cases use the fixed-shape guarantee template and the second-preemption scenario
+	tmpl := false
+	if prof.SecondPreempt > 0 && int(Mix(seed, 9)%1000) < prof.SecondPreempt {
+		if tm := guaranteeTemplate(NewRng(Mix(seed, 1))); tm != nil {
+			m, tmpl = tm, true
+		}
+	}
 	if cmdLog != nil {
 		fmt.Fprintf(cmdLog, "BEGIN %s %#x\n", prop, seed)
 	}
@@ -184,8 +192,12 @@ func RunCase(prop string, seed uint64, replayDir string, cmdLog *os.File) (res *
 	}
 	e.checkLimitsConfig(m, "init")
 	g := NewGen(r, m, e, prof)
+	if tmpl {
+		e.scenarioSecondPreemption(g, r)
+		e.obs("scenario.second_preemption", 1)
+	}
 	// prefix: nodes and applications
-	for i, n := 0, r.Range(1, prof.MaxNodes); i < n; i++ {
+	for i, n := 0, r.Range(1, prof.MaxNodes); i < n && !tmpl; i++ {
 		if op := g.make(OpAddNode); op != nil {
 			e.Do(op)
 		}
@@ -195,7 +207,7 @@ func RunCase(prop string, seed uint64, replayDir string, cmdLog *os.File) (res *
 			e.Do(op)
 		}
 	}
-	if prof.PreemptScenario > 0 && r.Chance(prof.PreemptScenario) {
+	if prof.PreemptScenario > 0 && !tmpl && r.Chance(prof.PreemptScenario) {
 		e.scenarioPreemption(g, r)
 		e.obs("scenario.preemption", 1)
 	}
